@@ -71,13 +71,13 @@ Proof.
 Qed.
 
 (* clause 24 certifies: with the registered offsets, the cluster id intervals [off_k, off_k + n_k) of two different
-   probes do not meet, and neither do the template id intervals *)
+   probes do not meet, and neither do the template id intervals [toff_k, toff_k + number of templates of probe k) *)
 Theorem c_disjoint_sound (ps : list probe) (o : obs) : c_disjoint ps o = true ->
   forall j k pj pk cj ck tj tk, (j < k)%nat -> nth_error ps j = Some pj -> nth_error ps k = Some pk ->
   nth_error (o_coffs o) j = Some cj -> nth_error (o_coffs o) k = Some ck ->
   nth_error (o_toffs o) j = Some tj -> nth_error (o_toffs o) k = Some tk ->
   (cj + n_ids (p_clu pj) <= ck \/ ck + n_ids (p_clu pk) <= cj) /\
-  (tj + n_ids (p_tmpl pj) <= tk \/ tk + n_ids (p_tmpl pk) <= tj).
+  (tj + p_ntmpl pj <= tk \/ tk + p_ntmpl pk <= tj).
 Proof.
   unfold c_disjoint. rewrite !andb_true_iff. intros (((_ & _) & H1) & H2) j k pj pk cj ck tj tk Hlt Hj Hk Cj Ck Tj Tk.
   assert (N : forall (X Y : Type) (l1 : list X) (l2 : list Y) i x y, nth_error l1 i = Some x -> nth_error l2 i = Some y ->
@@ -89,9 +89,9 @@ Proof.
   - apply (ivs_disjoint_sound _ H1 j k (cj, n_ids (p_clu pj)) (ck, n_ids (p_clu pk)) Hlt);
       apply N; try assumption; [exact (map_nth_error (fun p : probe => n_ids (p_clu p)) j ps Hj)|
                                 exact (map_nth_error (fun p : probe => n_ids (p_clu p)) k ps Hk)].
-  - apply (ivs_disjoint_sound _ H2 j k (tj, n_ids (p_tmpl pj)) (tk, n_ids (p_tmpl pk)) Hlt);
-      apply N; try assumption; [exact (map_nth_error (fun p : probe => n_ids (p_tmpl p)) j ps Hj)|
-                                exact (map_nth_error (fun p : probe => n_ids (p_tmpl p)) k ps Hk)].
+  - apply (ivs_disjoint_sound _ H2 j k (tj, p_ntmpl pj) (tk, p_ntmpl pk) Hlt);
+      apply N; try assumption; [exact (map_nth_error (@p_ntmpl A V F) j ps Hj)|
+                                exact (map_nth_error (@p_ntmpl A V F) k ps Hk)].
 Qed.
 
 Lemma in_combine_seq {X} (l : list X) : forall a k x, nth_error l k = Some x -> In ((a + k)%nat, x) (combine (seq a (length l)) l).
@@ -118,13 +118,17 @@ Proof.
   apply andb_true_iff in H as [H1 H2]. f_equal; [now apply Hs|now apply IH].
 Qed.
 
-(* clause 23 certifies: the merged rows attributed to probe k (by the registered offsets), shifted back, are a
-   permutation of probe k's own (time, amplitude, template, cluster) rows; and no row is left over *)
+(* clause 23 certifies: the registered offsets are the declarative ones (clusters: sums of largest id + 1; templates:
+   sums of the template counts); the merged rows attributed to probe k (by the registered offsets), shifted back, are
+   a permutation of probe k's own (time, amplitude, template, cluster) rows; and no row is left over *)
 Theorem c_payload_sound (ps : list probe) (o : obs) : c_payload aeqb ps o = true ->
+  o_coffs o = map (coff_spec ps) (seq 0 (length ps)) /\ o_toffs o = map (toff_spec ps) (seq 0 (length ps)) /\
   length (o_times o) = length (concat (map (@rows_of A V F) ps)) /\
   forall k p, nth_error ps k = Some p -> Permutation (sub_rows ps o k) (rows_of p).
 Proof.
-  unfold c_payload. rewrite !andb_true_iff, !Nat.eqb_eq. intros ((((_ & _) & _) & HL) & H). split; [exact HL|].
+  unfold c_payload. rewrite !andb_true_iff, !Nat.eqb_eq. intros ((((((_ & _) & _) & HC) & HT) & HL) & H).
+  split; [apply (list_eqb_sound Z.eqb); [intros a b; apply Z.eqb_eq|exact HC]|].
+  split; [apply (list_eqb_sound Z.eqb); [intros a b; apply Z.eqb_eq|exact HT]|]. split; [exact HL|].
   intros k p Hk. rewrite forallb_forall in H. specialize (H (k, p) (in_combine_seq ps 0 k p Hk)). cbn [fst snd] in H.
   apply (perm_b_sound (row_eqb aeqb) row_eqb_sound). exact H.
 Qed.
